@@ -693,7 +693,7 @@ def writer_stream(ctx, drv):
         lmsg = _hs.oracle_c01(c03.SoupWorld(soup))
         if lmsg:
             ctx.violation("the parsed document is not one consistent tree (C01's oracle on this parse): " + lmsg, case={"text": text, "opts": opts},
-                          observed=lmsg, stream=stream)
+                          observed=lmsg, stream="writer")
         got = shape(soup)
         evs = record(text)
         if evs is None:
@@ -811,6 +811,11 @@ def run(ctx: Ctx):
                 return
             ctx.violation(f"parsing raised {type(e).__name__}: {e}", case={"text": text, "opts": opts}, stream=stream)
             return
+        from . import heapsim as _hs
+        lmsg = _hs.oracle_c01(c03.SoupWorld(soup))
+        if lmsg:
+            ctx.violation("the parsed document is not one consistent tree (C01's oracle on this parse): " + lmsg, case={"text": text, "opts": opts},
+                          observed=lmsg, stream=stream)
         got = shape(soup)
         evs = record(text)
         if evs is None:
